@@ -27,11 +27,13 @@
 (* diverges iff a repetition body succeeds without consuming (the same call  *)
 (* repeats for ever) or a (node, position) pair is called while it is still  *)
 (* on the stack.  The machine detects both and stops in pc = "hang" naming   *)
-(* the cause (`why`).  Dialect "code" is today's implementation: compile time*)
-(* rejects only recursion that First meets while checking a choice.  Dialect *)
-(* "guarded" is the repaired design: a repetition ends on an iteration that  *)
-(* consumed nothing and every left-recursive rule is rejected at compile     *)
-(* time; for it TLC proves NoHang and <>done on every grammar of the bound.  *)
+(* the cause (`why`).  Dialect "guarded" is the implementation since commits *)
+(* 9896edf / a8daf6b (and what every registered cfg uses): a repetition ends *)
+(* on an iteration that consumed nothing and every left-recursive rule is    *)
+(* rejected at compile time; TLC proves NoHang and <>halted for it.  Dialect *)
+(* "code" is the implementation before those commits (compile time rejects   *)
+(* only recursion that First meets while checking a choice); it is kept to   *)
+(* document the two divergences and to name them when they come back.        *)
 EXTENDS Integers, Sequences, FiniteSets, TLC, VerifIO
 
 CONSTANTS Dialect,      \* "code" | "guarded"
@@ -217,20 +219,25 @@ RetOpt == /\ Running("opt") /\ ret.st # "none"
 \* gRepeat0.Match / gRepeat1.Match: greedy, the failing iteration is dropped
 RepeatStep(k) ==
   /\ Running(k) /\ ret.st # "none"
-  /\ LET f == Top IN
+  /\ LET f == Top
+         cause == IF k = "star" THEN "star-nullable" ELSE "plus-nullable" IN
      IF ret.st = "fail" THEN
-          IF k = "plus" /\ f.acc = <<>> THEN Return(FailR(ret.n))          \* +x needs one x
-          ELSE Return(OkR(f.n, Lst(f.acc)))
+          /\ IF k = "plus" /\ f.acc = <<>> THEN Return(FailR(ret.n))          \* +x needs one x
+             ELSE Return(OkR(f.n, Lst(f.acc)))
+          /\ undoc' = undoc
      ELSE IF ret.n = 0 THEN
           \* x matched without consuming: the next iteration is the same call again
           IF Dialect = "code"
-          THEN /\ pc' = "hang" /\ why' = (IF k = "star" THEN "star-nullable" ELSE "plus-nullable")
-               /\ stack' = stack /\ ret' = NoRet
-          ELSE \* guarded: the repetition ends; +x keeps its first (empty) match
-               Return(OkR(f.n, Lst(IF k = "plus" /\ f.acc = <<>> THEN <<ret.val>> ELSE f.acc)))
+          THEN /\ pc' = "hang" /\ why' = cause                          \* before commit 9896edf: loops for ever
+               /\ stack' = stack /\ ret' = NoRet /\ undoc' = undoc
+          ELSE \* match.go gRepeat0/gRepeat1 `if n1 == 0`: the repetition ends; +x keeps its first (empty) match.
+               \* The README does not say what an empty iteration yields (undoc); `why` remembers that the
+               \* guard was needed, so a regression is reported under the cause it had.
+               /\ stack' = Pop /\ pc' = pc /\ why' = cause /\ undoc' = TRUE
+               /\ ret' = OkR(f.n, Lst(IF k = "plus" /\ f.acc = <<>> THEN <<ret.val>> ELSE f.acc))
      ELSE LET f2 == [f EXCEPT !.n = f.n + ret.n, !.acc = Append(f.acc, ret.val)]
-          IN  Invoke(WithTop(f2), ChildPath(f, 1), f.pos + f2.n)
-  /\ UNCHANGED <<gram, G, an, inp, undoc, code>>
+          IN  Invoke(WithTop(f2), ChildPath(f, 1), f.pos + f2.n) /\ undoc' = undoc
+  /\ UNCHANGED <<gram, G, an, inp, code>>
 RetStar == RepeatStep("star")
 RetPlus == RepeatStep("plus")
 
